@@ -18,7 +18,7 @@ use std::time::Duration;
 
 pub struct C13;
 
-pub const FILE_CLASSES: [&str; 12] = [
+pub const FILE_CLASSES: [&str; 13] = [
     "none",
     "missing",
     "directory",
@@ -31,6 +31,7 @@ pub const FILE_CLASSES: [&str; 12] = [
     "noise_utf8",
     "noise_bytes",
     "deep_area",
+    "non_utf8_name",
 ];
 pub const STDIN_CLASSES: [&str; 5] = ["flip", "cut", "insert_ff", "bytes", "empty"];
 
@@ -53,6 +54,10 @@ pub fn cmds_from_parsed(p: &[UnOptCode]) -> Vec<Cmd> {
 
 pub struct FileVariant {
     pub name: String,
+    /// file name bytes that are not UTF-8 (the text `name` is then only for display)
+    pub raw_name: Option<Vec<u8>>,
+    /// valid content but the tool may refuse or accept it: any defined ending
+    pub lenient: bool,
     pub content: Option<Vec<u8>>,
     pub is_dir: bool,
     /// the tool must refuse it: status 1 + diagnostic, nothing executed
@@ -60,9 +65,9 @@ pub struct FileVariant {
 }
 
 fn noise_utf8(key: u64, n: usize) -> String {
-    const ALPHA: [&str; 40] = [
+    const ALPHA: [&str; 43] = [
         "형", "항", "핫", "흣", "흡", "흑", "혀", "하", "흐", "엉", "앙", "앗", "읏", "읍", "윽", "어", "아", "으", ".", "…", "⋯", "⋮", "?", "!", "♥", "❤", "💕", "💖",
-        "💗", "💘", "💙", "💚", "💛", "💜", "💝", "♡", " ", "\n", "a", "\u{0}",
+        "💗", "💘", "💙", "💚", "💛", "💜", "💝", "♡", " ", "\n", "a", "\u{0}", "\r", "\u{FEFF}", "\u{3000}",
     ];
     let mut s = String::new();
     for i in 0..n {
@@ -80,7 +85,7 @@ pub fn file_variant(sc: &Scenario, class: &str) -> FileVariant {
     let key = sc.plan.key ^ 0xF17E;
     let src = sc.source().into_bytes();
     let ok_name = sc.file_name.clone();
-    let mut v = FileVariant { name: ok_name.clone(), content: Some(src.clone()), is_dir: false, unreadable: false };
+    let mut v = FileVariant { name: ok_name.clone(), raw_name: None, lenient: false, content: Some(src.clone()), is_dir: false, unreadable: false };
     match class {
         "none" => {}
         "missing" => {
@@ -146,6 +151,11 @@ pub fn file_variant(sc: &Scenario, class: &str) -> FileVariant {
             v.unreadable = std::str::from_utf8(&b).is_err();
             v.content = Some(b);
         }
+        "non_utf8_name" => {
+            v.name = "p\u{FFFD}.hyeong".into();
+            v.raw_name = Some(b"p\xFF.hyeong".to_vec());
+            v.lenient = true;
+        }
         _ => {
             // deep_area: up to 4096 operators behind one command (the C04 bound)
             let n = 1 + (mix(key ^ 8) % 4096) as usize;
@@ -205,11 +215,19 @@ struct Invocation {
     world: simcore::World,
 }
 
+pub fn variant_path(dir: &std::path::Path, fv: &FileVariant) -> std::path::PathBuf {
+    use std::os::unix::ffi::OsStrExt;
+    match &fv.raw_name {
+        Some(b) => dir.join(std::ffi::OsStr::from_bytes(b)),
+        None => dir.join(&fv.name),
+    }
+}
+
 fn invoke(sc: &Scenario, fv: &FileVariant, sub: &str, level: u8, stdin: Vec<u8>, tick_budget: u64) -> Invocation {
     let dir = sim::scratch_dir().join("c13");
     let _ = std::fs::remove_dir_all(&dir);
     std::fs::create_dir_all(&dir).expect("scratch");
-    let path = dir.join(&fv.name);
+    let path = variant_path(&dir, fv);
     if fv.is_dir {
         std::fs::create_dir_all(&path).expect("mkdir");
     } else if let Some(c) = &fv.content {
@@ -324,7 +342,9 @@ impl C13 {
             if cmds.iter().any(|c| c.count() >= (1 << 31)) {
                 return None;
             }
-            if sub == "check" {
+            if fv.lenient {
+                (Want::AnyDefined, want_for(&cmds, &stdin, sc.budget, sc.cap_bits).1, cmds.len())
+            } else if sub == "check" {
                 (Want::Status0, 1000, cmds.len())
             } else {
                 let (w, b) = want_for(&cmds, &stdin, sc.budget, sc.cap_bits);
@@ -342,6 +362,7 @@ impl C13 {
             "empty" => out.add("F7_file_empty", 1),
             "bitflip" | "cut_inside_char" | "lone_continuation" => out.add("F7_file_not_utf8", 1),
             "noise_utf8" | "noise_bytes" => out.add("F7_file_noise", 1),
+            "non_utf8_name" => out.add("F7_file_name_not_utf8", 1),
             _ => out.add("F7_file_deep_area_chain", 1),
         }
         if sclass != "none" {
@@ -354,7 +375,7 @@ impl C13 {
             Want::Status0 => out.add("want_status0", 1),
             Want::AnyDefined => out.add("want_any_defined", 1),
         }
-        classify(&tag, &want, &inv, sub, ncmds)
+        classify(&tag, &want, &inv, if fv.lenient { "run" } else { sub }, ncmds)
     }
 }
 
@@ -485,10 +506,15 @@ impl Property for C13 {
             let sc = make_scenario(self, seed, i, tier);
             let level = (i % 3) as u8;
             for (fi, fclass) in FILE_CLASSES.iter().enumerate() {
+                if *fclass == "non_utf8_name" {
+                    // clap refuses such an argument with its own usage error (status 2) before the tool
+                    // sees it: command-line syntax is outside the property; the class runs in SimWorld only
+                    continue;
+                }
                 let fv = file_variant(&sc, fclass);
                 let dir = root.join(format!("{}-{}", i, fi));
                 std::fs::create_dir_all(&dir).expect("mkdir");
-                let path = dir.join(&fv.name);
+                let path = variant_path(&dir, &fv);
                 if fv.is_dir {
                     std::fs::create_dir_all(&path).expect("mkdir");
                 } else if let Some(c) = &fv.content {
@@ -505,12 +531,19 @@ impl Property for C13 {
                         let _ = std::fs::remove_dir_all(&dir);
                         continue;
                     }
-                    if sub == "check" {
+                    if fv.lenient {
+                        // any defined ending, but only for runs the model bounds
+                        match want_for(&cmds, &stdin, sc.budget, sc.cap_bits).0 {
+                            Want::AnyDefined => (Want::AnyDefined, 0),
+                            _ => (Want::Diagnosed, usize::MAX),
+                        }
+                    } else if sub == "check" {
                         (Want::Status0, cmds.len())
                     } else {
                         (want_for(&cmds, &stdin, sc.budget, sc.cap_bits).0, cmds.len())
                     }
                 };
+                let lenient_real = ncmds == usize::MAX;
                 if want == Want::AnyDefined {
                     // cannot bound a real process by steps: only terminating cases go to RealWorld
                     let _ = std::fs::remove_dir_all(&dir);
@@ -522,9 +555,8 @@ impl Property for C13 {
                 }
                 args.push("--color".into());
                 args.push("never".into());
-                args.push(path.to_string_lossy().into_owned());
                 let chunks = real::chunks_from_plan(&sc.plan, 64);
-                let r = match real::run(&bin, &args, None, &stdin, &chunks, Duration::from_secs(60)) {
+                let r = match real::run_os(&bin, &args, Some(path.as_os_str()), &stdin, &chunks, Duration::from_secs(60)) {
                     Ok(r) => r,
                     Err(e) => {
                         println!("HARNESS-ERROR: {}", e);
@@ -535,14 +567,14 @@ impl Property for C13 {
                 let _ = std::fs::remove_dir_all(&dir);
                 let diag = has_diag(&r.stderr);
                 let ok_class = !r.timed_out && r.signal.is_none() && matches!(r.status, Some(0) | Some(1));
-                let ok_dir = match &want {
+                let ok_dir = lenient_real || match &want {
                     Want::Refuse => r.status == Some(1) && diag && only_marker_lines(&r.stdout),
                     Want::Status0 => r.status == Some(0),
                     Want::ProgramExit(c) => r.status == Some(*c),
                     Want::Diagnosed => r.status == Some(1) && diag,
                     Want::AnyDefined => true,
                 };
-                let listing_ok = !(sub == "check" && r.status == Some(0))
+                let listing_ok = lenient_real || !(sub == "check" && r.status == Some(0))
                     || String::from_utf8_lossy(&r.stdout).lines().filter(|l| !l.starts_with("==> ")).count() == ncmds;
                 if !(ok_class && ok_dir && listing_ok) {
                     let mut s = sc.clone();
